@@ -2,6 +2,8 @@ package main
 
 import (
 	"go/token"
+	"go/types"
+	"sort"
 	"strings"
 
 	"golang.org/x/tools/go/ssa"
@@ -373,7 +375,10 @@ func init() {
 		Explanation: "Decides the ingest wiring clause: one memstore update per accepted WAL entry (exact nil-key test), the three filters (retention, partition, WHERE) precede the store on every path, the period index comes from RoundTimeUp, nothing stored aliases the recycled WAL buffer, and a rejected entry still advances the offset. Added clauses: one row store insert per WAL entry with all values of an array-valued point applied next to the main value in one lock region; closures run twice by bytemap.Build do not accumulate (known finding K5); every follower entry passes the table's own partition test; = C10.c and the sorted-flush buffer-reuse clause of C03.b.",
 		NotDecided:  []string{"numerical equality with a reference aggregator", "expression arithmetic and value coercions", "Sequence.UpdateValue offset arithmetic and Merge alignment (values)"},
 		Assumptions: []string{"go/ssa models control flow", "modsum external tables"},
-		Rules: []func(*Ctx){func(c *Ctx) { ruleC01a(c, "C01.a") }, func(c *Ctx) { ruleC01b(c, "C01.b") }, func(c *Ctx) { ruleC01c(c, "C01.c") }, func(c *Ctx) { ruleC01d(c, "C01.d") }, func(c *Ctx) { ruleC01f(c, "C01.f") }, func(c *Ctx) {
+		Rules: []func(*Ctx){func(c *Ctx) { ruleC01a(c, "C01.a") }, func(c *Ctx) { ruleC01b(c, "C01.b") }, func(c *Ctx) { ruleC01c(c, "C01.c") }, func(c *Ctx) { ruleC01d(c, "C01.d") }, func(c *Ctx) { ruleC01f(c, "C01.f") }, func(c *Ctx) { ruleExprAdvances(c, "C01.h") }, func(c *Ctx) {
+			c.describe("C01.i", "= C18.b lock regions: file store and memstore copy are captured in one critical section, so a flush cannot make a scan count a point twice")
+			ruleLockRegions(c, "C01.i")
+		}, func(c *Ctx) {
 			c.describe("C01.g", "= C10.c / C03.b: on a cluster a point is stored by the follower that owns it (same keys, same order on both sides); a sorted flush never reuses the read buffer for rows its sorter retains")
 			ruleC10c(c, "C01.g")
 			ruleC03b(c, "C01.g")
@@ -480,4 +485,81 @@ func resetAtStart(cb *ssa.Function, cell ssa.Value) bool {
 		}
 	}
 	return false
+}
+
+// ruleExprAdvances: an accumulator-walking method of an expression consumes
+// exactly its own slot of the row buffer on every path.
+func ruleExprAdvances(c *Ctx, rule string) {
+	c.describe(rule, "flow: for every expression type in package expr whose EncodedWidth is not constantly 0, Update (and Merge for its destination) never returns the buffer it was given unadvanced — on every return the first result is a re-slice of the parameter, the remainder handed back by a wrapped expression, or the result of save(); an operator that leaves the buffer where it was makes the next operand of an arithmetic expression overwrite its slot")
+	type meth struct {
+		name string
+		idx  []int // which results mirror which params (result i must not be raw param idx[i])
+	}
+	n := 0
+	var names []string
+	byName := map[string]*ssa.Function{}
+	for fn := range c.P.AllFns {
+		if fn.Signature.Recv() == nil || fn.Synthetic != "" || len(fn.Blocks) == 0 || pkgOf(fn) != "z/expr" {
+			continue
+		}
+		if fn.Name() != "Update" && fn.Name() != "Merge" {
+			continue
+		}
+		nm := stableName(fn)
+		if _, dup := byName[nm]; !dup {
+			byName[nm] = fn
+			names = append(names, nm)
+		}
+	}
+	sort.Strings(names)
+	for _, nm := range names {
+		fn := byName[nm]
+		// EncodedWidth of the same receiver type
+		recv := fn.Signature.Recv().Type()
+		var ew *ssa.Function
+		for g := range c.P.AllFns {
+			if g.Name() == "EncodedWidth" && g.Signature.Recv() != nil && types.Identical(g.Signature.Recv().Type(), recv) && g.Synthetic == "" {
+				ew = g
+			}
+		}
+		zeroWidth := ew != nil
+		if ew != nil {
+			for _, in := range instrs(ew) {
+				if r, ok := in.(*ssa.Return); ok {
+					if k, isK := constInt(r.Results[0]); !isK || k != 0 {
+						zeroWidth = false
+					}
+				}
+			}
+		}
+		if zeroWidth {
+			continue
+		}
+		var bp *ssa.Parameter
+		for _, p := range fn.Params[1:] {
+			if isByteSlice(p.Type()) {
+				bp = p
+				break
+			}
+		}
+		if bp == nil {
+			continue
+		}
+		n++
+		c.touch(fn)
+		bad := ""
+		for _, in := range instrs(fn) {
+			r, ok := in.(*ssa.Return)
+			if !ok || len(r.Results) == 0 {
+				continue
+			}
+			for _, leaf := range phiLeaves(r.Results[0]) {
+				if strip(leaf) == ssa.Value(bp) {
+					bad = c.P.Pos(r.Pos())
+				}
+			}
+		}
+		c.check(rule, nm+" advances the buffer", fn.Pos(), bad == "", "no return hands back the buffer parameter itself", "a return (at "+bad+") hands back the accumulator buffer unadvanced although the expression occupies a slot of non-zero width: the next operand of an enclosing expression writes into this operand's slot (e.g. IF(cond, SUM(a)) - SUM(b) when the condition excludes the point)")
+	}
+	c.floor(rule, "Update/Merge methods of sized expressions", n, 10)
 }
